@@ -14,7 +14,17 @@ SCHED_SCENARIOS = [
     [[{"op": "reg", "r": "infix", "name": "+", "val": "h1", "prec": 110, "assoc": "L"}], [{"op": "exec", "r": "prefix", "name": "-"}]],
     [[{"op": "exec", "r": "postfix", "name": "++"}], [{"op": "exec", "r": "func", "name": "f"}, {"op": "reg", "r": "func", "name": "f", "val": "h2"}]],
     [[{"op": "reg", "r": "prefix", "name": "upre", "val": "h1"}], [{"op": "reg", "r": "postfix", "name": "upost", "val": "h2"}, {"op": "exec", "r": "prefix", "name": "upre"}]],
+    # a first parse on one thread while another registers a NEW operator and uses it
+    [[{"op": "exec", "r": "func", "name": "min"}], [{"op": "reg", "r": "prefix", "name": "upre", "val": "h1"}, {"op": "exec", "r": "prefix", "name": "upre"}]],
+    [[{"op": "exec", "r": "infix", "name": "+"}], [{"op": "reg", "r": "postfix", "name": "upost", "val": "h1"}, {"op": "exec", "r": "postfix", "name": "upost"}]],
 ]
+
+HAMMER = {"threads": [[{"op": "reg", "r": "infix", "name": "uin", "val": "h1", "prec": 115, "assoc": "L"}, {"op": "reg", "r": "prefix", "name": "upre", "val": "h2"}],
+                      [{"op": "reg", "r": "func", "name": "f", "val": "h3"}, {"op": "reg", "r": "postfix", "name": "upost", "val": "h4"}],
+                      [{"op": "exec", "r": "infix", "name": "uin"}, {"op": "exec", "r": "func", "name": "min"}],
+                      [{"op": "exec", "r": "prefix", "name": "upre"}, {"op": "parse", "r": "infix", "name": "+"}],
+                      [{"op": "exec", "r": "func", "name": "f"}, {"op": "exec", "r": "postfix", "name": "upost"}],
+                      [{"op": "exec", "r": "infix", "name": "+"}, {"op": "exec", "r": "prefix", "name": "-"}]], "mode": "hammer", "repeat": 3000}
 
 
 def apalache(run):
@@ -67,6 +77,17 @@ def check(run):
     eng.run_many(run, "forced-schedules", scenarios, "C13", "C13")
     # T: stress
     eng.run_many(run, "stress", eng.free_scenarios(run.seed, 1500 if thorough else 150, 8 if thorough else 6), "C13", "C13")
+    # sustained load: registrars and evaluators hammering the engine in one process; not validated event by event - only
+    # deadlock (watchdog), panics and results that no registration could explain are reported
+    for k in range(8 if thorough else 3):
+        evs, summ = eng.run_scenario(dict(HAMMER, repeat=(20000 if thorough else 3000) + k), timeout=120)
+        run.traces += 1
+        if summ.get("deadlock") or summ.get("hung") or "aborted" in summ:
+            run.violation("C13/deadlock", "sustained concurrent registration and evaluation did not finish: %s" % {k2: v for k2, v in summ.items() if k2 != "stderr"}, {"family": "engine", "scenario": HAMMER, "summary": summ})
+        elif summ.get("panics") or summ.get("impossible_results"):
+            run.violation("C13/hammer", "under sustained load %d calls panicked and %d returned results no registration explains" % (summ.get("panics", 0), summ.get("impossible_results", 0)),
+                          {"family": "engine", "scenario": HAMMER, "summary": summ})
+    run.leg("R:hammer", runs=8 if thorough else 3, threads=6)
     # the directed F1 scenario: a known finding on the unchanged tree (non-atomic evaluation), anything else is a violation
     evs, summ = eng.run_scenario(F1_SCENARIO)
     if summ.get("deadlock") or "aborted" in summ:
